@@ -107,11 +107,12 @@ impl Settings {
         }
         if self.lazer_extra & 4 != 0 {
             match self.mode {
+                // a negative seed stands for "no seed given": the mod is then ignored
                 3 => mods.insert(GameMod::RandomMania(RandomMania {
-                    seed: Some(f64::from(self.seed)),
+                    seed: (self.seed >= 0).then(|| f64::from(self.seed)),
                 })),
                 1 => mods.insert(GameMod::RandomTaiko(RandomTaiko {
-                    seed: Some(f64::from(self.seed)),
+                    seed: (self.seed >= 0).then(|| f64::from(self.seed)),
                 })),
                 _ => {}
             }
@@ -267,7 +268,7 @@ pub fn gen_settings(rng: &mut Rng, mode: u8) -> Settings {
         bits,
         repr,
         lazer_extra,
-        seed: rng.range(-5, 100_000) as i32,
+        seed: if rng.chance(1, 6) { -1 } else { rng.range(0, 100_000) as i32 },
         mode,
         clock_rate: if rng.chance(1, 4) {
             Some((rng.f64_range(0.5, 2.0) * 100.0).round() / 100.0)
